@@ -230,8 +230,17 @@ struct Run {
 }
 
 fn run_impl(dir: Dir, max: usize, chunks: &[Vec<u8>]) -> Run {
+    run_impl_cap(dir, max, chunks, None)
+}
+
+/// `cap`: the read buffer starts with that capacity (what a connection's buffer looks like after
+/// a large frame went through it); `None` = a fresh `BytesMut::new()`.
+fn run_impl_cap(dir: Dir, max: usize, chunks: &[Vec<u8>], cap: Option<usize>) -> Run {
     let mut dec = AnyDec::new(dir, max);
-    let mut buf = BytesMut::new();
+    let mut buf = match cap {
+        Some(n) => BytesMut::with_capacity(n),
+        None => BytesMut::new(),
+    };
     let mut run = Run::default();
     for (ri, chunk) in chunks.iter().enumerate() {
         if run.fault.is_some() {
@@ -328,9 +337,12 @@ impl AsyncRead for ChunkReader {
 }
 
 /// The same chunks through the real `FramedRead`: (messages, terminal error kind).
-fn run_framed(rt: &tokio::runtime::Runtime, dir: Dir, max: usize, chunks: &[Vec<u8>]) -> (Vec<Value>, Option<&'static str>) {
+fn run_framed(rt: &tokio::runtime::Runtime, dir: Dir, max: usize, chunks: &[Vec<u8>], cap: Option<usize>) -> (Vec<Value>, Option<&'static str>) {
     let reader = ChunkReader { chunks: chunks.iter().filter(|c| !c.is_empty()).cloned().collect(), idx: 0, off: 0 };
-    let mut fr = FramedRead::new(reader, AnyDec::new(dir, max));
+    let mut fr = match cap {
+        Some(n) => FramedRead::with_capacity(reader, AnyDec::new(dir, max), n),
+        None => FramedRead::new(reader, AnyDec::new(dir, max)),
+    };
     let r = std::panic::catch_unwind(std::panic::AssertUnwindSafe(|| run_framed_inner(rt, &mut fr)));
     r.unwrap_or((vec![], Some("panic")))
 }
@@ -373,6 +385,9 @@ struct Case {
     bounds: Vec<usize>,
     limit_edge: bool,
     label: String,
+    /// initial capacity of the decoder's read buffer (None = fresh buffer); the model has no
+    /// capacity, so it is not part of the model request: the trace must not depend on it
+    cap: Option<usize>,
 }
 
 fn hex(b: &[u8]) -> String {
@@ -543,7 +558,7 @@ fn build_case(dir: Dir, r: &mut Rng, nmsgs: u64, size: u64, tail: Tail, edge: bo
     } else {
         label = "BigMsg(edge)".into();
     }
-    Case { dir, max, stream: stream.to_vec(), sent, end, bounds, limit_edge, label }
+    Case { dir, max, stream: stream.to_vec(), sent, end, bounds, limit_edge, label, cap: None }
 }
 
 fn split(stream: &[u8], cuts: &[usize]) -> Vec<Vec<u8>> {
@@ -574,7 +589,7 @@ impl Ctx {
     /// One case under one chunking: impl, model, oracle.
     fn eval(&mut self, c: &Case, chunks: &[Vec<u8>], exhaustive: bool) {
         let input = json!({
-            "dir": c.dir.name(), "max": c.max, "label": c.label,
+            "dir": c.dir.name(), "max": c.max, "label": c.label, "capacity": c.cap,
             "chunks": chunks.iter().map(|x| hex(x)).collect::<Vec<_>>(),
             "sent": c.sent,
             "end": match &c.end {
@@ -584,7 +599,7 @@ impl Ctx {
                 End::Unknown => json!("unknown"),
             },
         });
-        let run = run_impl(c.dir, c.max, chunks);
+        let run = run_impl_cap(c.dir, c.max, chunks, c.cap);
 
         // ---- model
         let line = format!(
@@ -639,7 +654,7 @@ impl Ctx {
             End::Unknown => {}
         }
         // chunking independence against the implementation itself
-        if chunks.len() > 1 {
+        if chunks.len() > 1 || c.cap.is_some() {
             let whole = run_impl(c.dir, c.max, &[c.stream.clone()]);
             if whole.msgs != run.msgs || whole.fault != run.fault || (run.fault.is_none() && whole.final_buf != run.final_buf) {
                 problems.push(format!(
@@ -650,7 +665,7 @@ impl Ctx {
         }
         // the real FramedRead on the same chunks
         if self.rep.evaluations % self.framed_every == 0 {
-            let (fmsgs, ferr) = run_framed(&self.rt, c.dir, c.max, chunks);
+            let (fmsgs, ferr) = run_framed(&self.rt, c.dir, c.max, chunks, c.cap);
             self.rep.count("framed-read:runs");
             let want_err: Option<&str> = match (&run.fault, run.final_buf) {
                 (Some(k), _) => Some(k),
@@ -682,7 +697,10 @@ impl Ctx {
         }
         let frames_total = c.bounds.len() + usize::from(c.end != End::Clean);
         let nontrivial = chunks.len() >= 2 && inside && (frames_total >= 2 || c.limit_edge || matches!(c.end, End::Fault { .. } | End::Pending(_)));
-        self.rep.case(if nontrivial { Some(format!("{:016x}", fnv(line.as_bytes()))) } else { None });
+        self.rep.case(if nontrivial { Some(format!("{:016x}{}", fnv(line.as_bytes()), c.cap.map(|n| format!("@{n}")).unwrap_or_default())) } else { None });
+        if let Some(n) = c.cap {
+            self.rep.count(&format!("read-buffer-capacity:{}", if n >= CODEC_BYTESMUT_ALLOCATION_LIMIT { ">=allocation-limit" } else { "<allocation-limit" }));
+        }
         self.rep.count(&format!("tail:{}", c.label));
         self.rep.count(&format!("dir:{}", c.dir.name()));
         self.rep.count(&format!("end:{}", match (&run.fault, run.final_buf) {
@@ -761,6 +779,61 @@ impl Ctx {
         }
     }
 
+    /// Directed, always run: a read buffer whose CAPACITY is just below / at / above the codec's
+    /// allocation limit (the state after a large frame) receiving three small frames, with the
+    /// second frame arriving in two reads: cut inside its header, at the end of its header, inside
+    /// its body, exactly at the frame boundary, and one read carrying frames one and two whole.
+    /// Judged by `eval` like any other case (delivered == sent, clean end, same as one read of the
+    /// whole stream, same through FramedRead with that capacity, same trace as the model).
+    fn capacity_cases(&mut self, dir: Dir, r: &mut Rng, size: u64) {
+        // three messages (every payload is at least 6 bytes); the smallest ones first so that the
+        // first failure reported is the easiest to read
+        let msgs: Vec<AnyMsg> = vec![gen_msg(dir, r, 0), gen_msg(dir, r, size), gen_msg(dir, r, 0)];
+        let mut stream = BytesMut::new();
+        let mut sent = vec![];
+        let mut bounds = vec![];
+        let mut max = 0;
+        for m in msgs {
+            sent.push(m.value());
+            let before = stream.len();
+            m.encode(&mut stream).expect("encode");
+            max = max.max(stream.len() - before - 8);
+            bounds.push(stream.len());
+        }
+        let (b1, b2, n) = (bounds[0], bounds[1], stream.len());
+        let lim = CODEC_BYTESMUT_ALLOCATION_LIMIT;
+        // capacities: around the limit itself, around "limit after the first frame was consumed",
+        // and well beyond
+        let caps = [lim - 1, lim, lim + 1, lim + b1 - 1, lim + b1, lim + b1 + 1, lim + 4096, 2 * lim];
+        let cut_sets: Vec<Vec<usize>> = vec![
+            vec![b1 + 3, b2],     // inside the header of frame two
+            vec![b1 + 8, b2],     // header of frame two complete, no body yet
+            vec![b1 + 9, b2],     // inside the body of frame two
+            vec![b2 - 1, b2],     // all but the last byte of frame two
+            vec![b1, b2],         // exactly at the boundary
+            vec![b2],             // frames one and two in one read (pipelined)
+            vec![b1 + 3],         // rest of two and all of three in one read
+            vec![b1 + 3, b2 + 5], // both following frames fragmented
+        ];
+        for cap in caps {
+            for cuts in &cut_sets {
+                let cuts: Vec<usize> = cuts.iter().copied().filter(|c| *c > 0 && *c < n).collect();
+                let c = Case {
+                    dir,
+                    max,
+                    stream: stream.to_vec(),
+                    sent: sent.clone(),
+                    end: End::Clean,
+                    bounds: bounds.clone(),
+                    limit_edge: false,
+                    label: "Capacity".into(),
+                    cap: Some(cap),
+                };
+                self.eval(&c, &split(&c.stream, &cuts), false);
+            }
+        }
+    }
+
     /// Buffers beyond CODEC_BYTESMUT_ALLOCATION_LIMIT (capacity recycling): implementation and
     /// oracle only (the model has no capacity). The > 8 MiB frame is `"Pong"` followed by JSON
     /// whitespace (cheap to parse unoptimised), hand-framed like the other hand-made tails.
@@ -835,6 +908,8 @@ fn main() {
             "real Consumer/SupplierCodec on BytesMut vs Lean feedAll + oracle from the stream's construction; \
              streams = real messages via the real encoder + tail (none / zero header / oversize header / over-limit real message / \
              non-JSON payload / truncated frame / garbage); every split into <=4 chunks for short streams, random splits otherwise; \
+             directed + 1 in 24 random cases on a read buffer whose capacity is just below / at / above CODEC_BYTESMUT_ALLOCATION_LIMIT \
+             with the following frame cut in its header / body / at the boundary (capacity is not part of the model request); \
              non-trivial = >=2 reads, some cut strictly inside a frame, and (>=2 frames, or max within +-1 of a payload length, \
              or the stream ends in a bad/truncated frame); distinct = distinct (max, chunk list)",
         ),
@@ -870,6 +945,7 @@ fn main() {
                 bounds: vec![],
                 limit_edge: false,
                 label: inp["label"].as_str().unwrap_or("replay").to_string(),
+                cap: inp["capacity"].as_u64().map(|n| n as usize),
             };
             ctx.eval(&c, &chunks, false);
         }
@@ -898,6 +974,13 @@ fn main() {
         ctx.exhaustive(&c, parts);
     }
     ctx.rep.note(format!("exhaustive: {nshort} short streams, every split into <=4 non-empty chunks (<=3 beyond 30 bytes, <=2 beyond 100)"));
+
+    // 1b. directed: oversized read buffers (capacity around the allocation limit) x fragmentation
+    // of the following frames, both directions; always run, before the random search
+    for (i, dir) in [Dir::C2S, Dir::S2C, Dir::C2S, Dir::S2C].into_iter().enumerate() {
+        let mut r = Rng::for_case(args.seed ^ 0xCA9, i as u64);
+        ctx.capacity_cases(dir, &mut r, if i < 2 { 0 } else { 2 });
+    }
 
     // 2. random longer streams, random schedules (empty reads and byte-by-byte included)
     ctx.framed_every = 3;
@@ -940,6 +1023,19 @@ fn main() {
             cuts.dedup(); // otherwise duplicates stay = empty reads
         }
         let chunks = if n == 0 { vec![vec![]] } else { split(&c.stream, &cuts) };
+        // search bias: 1 case in 24 runs on a read buffer whose capacity is around / beyond the
+        // allocation limit (drawn last, so the streams of a seed are those of earlier runs)
+        let mut c = c;
+        if r.chance(1, 24) {
+            let lim = CODEC_BYTESMUT_ALLOCATION_LIMIT;
+            c.cap = Some(match r.below(5) {
+                0 => lim - 1 - r.below(64) as usize,
+                1 => lim,
+                2 => lim + r.below(c.stream.len() as u64 + 2) as usize,
+                3 => lim + n + r.below(8192) as usize,
+                _ => 2 * lim + r.below(8192) as usize,
+            });
+        }
         ctx.eval(&c, &chunks, false);
         if i % 10 == 0 {
             ctx.encoder_case(dir, &mut r);
